@@ -331,3 +331,118 @@ func (m *Model) WriteCount(id int) int {
 
 // Versions returns the number of committed versions of key.
 func (m *Model) Versions(key string) int { return len(m.committed[key]) }
+
+// Clone returns a deep copy.
+func (m *Model) Clone() *Model {
+	n := &Model{t: m.t, committed: make(map[string][]ver, len(m.committed)), txs: make(map[int]*tx, len(m.txs))}
+	for k, v := range m.committed {
+		n.committed[k] = append([]ver(nil), v...)
+	}
+	for id, t := range m.txs {
+		nt := &tx{level: t.level, tBegin: t.tBegin, open: t.open, own: make(map[string]ver, len(t.own))}
+		for k, v := range t.own {
+			nt.own[k] = v
+		}
+		n.txs[id] = nt
+	}
+	return n
+}
+
+// Canon returns a canonical rendering of everything that can influence a later
+// result: for every key the latest committed version and, for snapshot readers,
+// the history; every open transaction with its writes; relative order only.
+func (m *Model) Canon() string {
+	// collect all time stamps in use and rank them, so that equal shapes reached
+	// by different numbers of steps compare equal
+	stamps := map[int]struct{}{}
+	for _, vs := range m.committed {
+		for _, v := range vs {
+			stamps[v.tw] = struct{}{}
+			stamps[v.tc] = struct{}{}
+		}
+	}
+	for _, t := range m.txs {
+		if !t.open {
+			continue
+		}
+		stamps[t.tBegin] = struct{}{}
+		for _, v := range t.own {
+			stamps[v.tw] = struct{}{}
+		}
+	}
+	order := make([]int, 0, len(stamps))
+	for s := range stamps {
+		order = append(order, s)
+	}
+	sort.Ints(order)
+	rank := make(map[int]int, len(order))
+	for i, s := range order {
+		rank[s] = i
+	}
+	var b []byte
+	app := func(s string) { b = append(b, s...); b = append(b, 0) }
+	num := func(i int) { b = append(b, byte(i), byte(i>>8), 1) }
+	// is any snapshot transaction open? otherwise only the latest committed version matters
+	oldestSnap := -1
+	for _, t := range m.txs {
+		if t.open && (t.level == RR || t.level == SER) && (oldestSnap < 0 || t.tBegin < oldestSnap) {
+			oldestSnap = t.tBegin
+		}
+	}
+	for _, k := range m.Keys() {
+		app("K" + k)
+		vs := m.committed[k]
+		for i, v := range vs {
+			keep := i == len(vs)-1
+			if !keep && oldestSnap >= 0 {
+				// versions that some snapshot may still read or conflict-check against
+				keep = i+1 < len(vs) && vs[i+1].tc > oldestSnap || v.tc > oldestSnap
+			}
+			if !keep {
+				continue
+			}
+			if v.tomb {
+				app("T")
+			} else {
+				app("V" + v.val)
+			}
+			num(rank[v.tw])
+			num(rank[v.tc])
+		}
+	}
+	for _, id := range m.OpenTxs() {
+		t := m.txs[id]
+		app("X")
+		num(id)
+		num(int(t.level))
+		num(rank[t.tBegin])
+		ks := make([]string, 0, len(t.own))
+		for k := range t.own {
+			ks = append(ks, k)
+		}
+		sort.Strings(ks)
+		for _, k := range ks {
+			v := t.own[k]
+			app(k)
+			if v.tomb {
+				app("T")
+			} else {
+				app("V" + v.val)
+			}
+			num(rank[v.tw])
+		}
+	}
+	// ended transactions matter only as "known and closed"
+	var ended []int
+	for id, t := range m.txs {
+		if !t.open {
+			ended = append(ended, id)
+		}
+	}
+	sort.Ints(ended)
+	for _, id := range ended {
+		app("E")
+		num(id)
+	}
+	return string(b)
+}
